@@ -7,5 +7,6 @@ CONSTANTS
   WithKeepAlive = FALSE
   BugKaNoCtxCheck = FALSE
   BugKaNoDiscCheck = FALSE
+  BugReaderAfterWrite = FALSE
 CHECK_DEADLOCK FALSE
 INVARIANTS NoClosedAfterDisconnected
